@@ -117,6 +117,7 @@ type hePlan struct {
 	cliStreamWin  int
 	cliConnWin    int
 	boundBA       int
+	boundAB       int // client->server back-pressure (needs the verif build tag of /repo: ClientConn.wmu waiters block durably)
 	cutAfter      int
 	reqs          []*heReq
 }
@@ -282,6 +283,9 @@ func heDrawPlan(rt *rapid.T, cfg string) *hePlan {
 	if vs.Pct(c, 20) {
 		p.boundBA = vs.Pick(c, 5000, 1, 9, 100, 70000)
 	}
+	if cfg == "fault" && vs.Pct(c, 25) {
+		p.boundAB = vs.Pick(c, 5000, 1, 9, 100, 70000)
+	}
 	upStreamEff := int(p.upStream)
 	if upStreamEff == 0 {
 		upStreamEff = 1 << 20
@@ -304,6 +308,9 @@ func heDrawPlan(rt *rapid.T, cfg string) *hePlan {
 	respCap := min(maxBody, cliStreamEff*100)
 	if p.boundBA > 0 {
 		respCap = min(respCap, p.boundBA*300) // every bound-full of bytes needs a delivery step
+	}
+	if p.boundAB > 0 {
+		reqCap = min(reqCap, p.boundAB*300)
 	}
 	maxHdrTotal := vs.Thorough(48000, 140000)
 
@@ -958,10 +965,12 @@ func (r *heRun) caller(i int) func(tk *vs.Task) {
 			switch {
 			case q.overReq && kind == "req_header_list_size":
 				vs.G.Inc("probe.req_over_limit_refused")
-			case kind == "conn_unusable" && !r.p.strict && r.p.maxStreams > 0 && int(r.p.maxStreams) < len(r.p.reqs) && !r.hStartedOf(i):
+			case kind == "conn_unusable" && !r.p.strict && r.p.maxStreams > 0 && (int(r.p.maxStreams) < len(r.p.reqs) || r.anyCanceled()) && !r.hStartedOf(i):
 				// Without StrictMaxConcurrentStreams a ClientConn at its stream
 				// limit declines the request (the pool would dial another
-				// connection); nothing was sent.
+				// connection); nothing was sent. A cancelled request keeps its
+				// slot until the server has answered the PING sent with its
+				// RST_STREAM (and while that write is blocked it counts twice).
 				vs.G.Inc("probe.declined_at_stream_limit")
 			case !r.affected(i):
 				r.setViol(vs.Violf("C14", "roundtrip_error", "resp:roundtrip_error:"+kind, "request %d (%s %s): RoundTrip failed although no fault touched it: %v", i, q.method, q.path, err))
@@ -1351,6 +1360,19 @@ func heStack() string {
 
 // ---------------------------------------------------------------------------
 // scheduler source: cancellations, enabling the cut
+
+// anyCanceled: some request of the plan makes the client give up a stream by
+// itself (cancellation, a request body that fails, a response body closed early,
+// an injected handler fault): such a stream keeps its slot until the PING sent
+// with its RST_STREAM is answered.
+func (r *heRun) anyCanceled() bool {
+	for _, q := range r.p.reqs {
+		if q.cancel || q.bodyErrAt >= 0 || q.closeEarlyAt >= 0 || q.hfault != "" {
+			return true
+		}
+	}
+	return false
+}
 
 func (r *heRun) Events(now time.Time) []vs.Event {
 	r.mu.Lock()
@@ -1763,7 +1785,7 @@ func heRunOnce(t *testing.T, rt *rapid.T, cfg string) {
 		r.conn.SplitHintAB = r.monAB.hint
 		r.conn.SplitHintBA = r.monBA.hint
 		if p.boundBA > 0 {
-			r.conn.BoundBA(p.boundBA) // never on the client->server direction (DESIGN 3.3)
+			r.conn.BoundBA(p.boundBA)
 		}
 		r.ledAB.init()
 		r.ledBA.init()
@@ -1813,6 +1835,12 @@ func heRunOnce(t *testing.T, rt *rapid.T, cfg string) {
 		}
 		atomic.StoreUint32(&cc.atomicReused, 1) // as Transport.RoundTrip marks a connection it uses
 		r.cc = cc
+		if p.boundAB > 0 {
+			// (after newClientConn, which writes the preface and SETTINGS on this
+			// goroutine, before the scheduler runs)
+			r.conn.BoundAB(p.boundAB)
+			vs.G.Inc("fault.client_write_backpressure")
+		}
 		tr.Ev("plan cfg=%s sched=%s maxStreams=%d strict=%v upConn=%d upStream=%d srvMaxRead=%d srvTbl=%d/%d maxHdrBytes=%d cliMaxRead=%d cliHdrList=%d cliTbl=%d/%d cliWin=%d/%d boundBA=%d cutAfter=%d reqs=%d",
 			cfg, p.sched, p.maxStreams, p.strict, p.upConn, p.upStream, p.srvMaxRead, p.srvDec, p.srvEnc, p.maxHdrBytes, p.cliMaxRead, p.cliMaxHdrList, p.cliDec, p.cliEnc, p.cliStreamWin, p.cliConnWin, p.boundBA, p.cutAfter, len(p.reqs))
 		for i, q := range p.reqs {
